@@ -8,6 +8,7 @@ import (
 	"fmt"
 	"math"
 	"math/bits"
+	"strconv"
 	"strings"
 )
 
@@ -126,6 +127,8 @@ type Store struct {
 	nextID int
 	vars   []*Term
 	tt, ff *Term
+	kbuf   []byte
+	fv     map[int][]*Term
 }
 
 func NewStore() *Store {
@@ -139,23 +142,27 @@ func (s *Store) Vars() []*Term { return s.vars }
 func (s *Store) Size() int     { return s.nextID }
 
 func (s *Store) key(t *Term) string {
-	var b strings.Builder
-	fmt.Fprintf(&b, "%d/%d.%d/", t.Op, t.Sort.K, t.Sort.W)
+	b := s.kbuf[:0]
+	b = append(b, byte(t.Op), byte(t.Sort.K), t.Sort.W)
 	switch t.Op {
 	case OConst:
+		var u uint64
 		if t.Sort.K == KFP64 || t.Sort.K == KFP32 {
-			fmt.Fprintf(&b, "%x", math.Float64bits(t.F))
+			u = math.Float64bits(t.F)
 		} else {
-			fmt.Fprintf(&b, "%x", t.U)
+			u = t.U
 		}
+		b = strconv.AppendUint(b, u, 16)
 	case OVar:
-		b.WriteString(t.Name)
+		b = append(b, t.Name...)
 	default:
 		for _, a := range t.Args {
-			fmt.Fprintf(&b, "%d,", a.ID)
+			b = strconv.AppendInt(b, int64(a.ID), 32)
+			b = append(b, ',')
 		}
 	}
-	return b.String()
+	s.kbuf = b
+	return string(b)
 }
 
 func (s *Store) mk(t *Term) *Term {
@@ -896,4 +903,57 @@ func SExtU(u uint64, w uint8, signed bool) uint64 {
 		return uint64(sext(u, w))
 	}
 	return u & mask(w)
+}
+
+// FreeVars returns the distinct variables of t if there are at most max of
+// them, else nil,false. Results are cached per term.
+func (s *Store) FreeVars(t *Term, max int) ([]*Term, bool) {
+	if s.fv == nil {
+		s.fv = map[int][]*Term{}
+	}
+	vs := s.freeVars(t, max)
+	if len(vs) > max {
+		return nil, false
+	}
+	return vs, true
+}
+
+var tooMany = make([]*Term, 64)
+
+func (s *Store) freeVars(t *Term, max int) []*Term {
+	switch t.Op {
+	case OConst:
+		return nil
+	case OVar:
+		return []*Term{t}
+	}
+	if v, ok := s.fv[t.ID]; ok {
+		return v
+	}
+	var out []*Term
+	for _, a := range t.Args {
+		sub := s.freeVars(a, max)
+		if len(sub) > max {
+			out = tooMany
+			break
+		}
+		for _, v := range sub {
+			dup := false
+			for _, o := range out {
+				if o == v {
+					dup = true
+					break
+				}
+			}
+			if !dup {
+				out = append(out, v)
+			}
+		}
+		if len(out) > max {
+			out = tooMany
+			break
+		}
+	}
+	s.fv[t.ID] = out
+	return out
 }
